@@ -25,7 +25,8 @@ def contracts(tier):
 
 def extra_obligations(tier):
     from contracts import hierarchical
-    return [solve.custom_result('hierarchical:HSpace[cache-invalidation]', hierarchical.F, 'HSpace.refine / _clear_cache', hierarchical.cache_invalidation_obligations)]
+    return [solve.custom_result('hierarchical:HSpace[cache-invalidation]', hierarchical.F, 'HSpace.refine / _clear_cache', hierarchical.cache_invalidation_obligations),
+            solve.custom_result('hierarchical:basis-flag', hierarchical.F, 'represent_fine / coeffs_to_levelwise_funcs / grid_eval / HSplineFunc', hierarchical.basis_flag_obligations)]
 
 
 MANIFEST = {
